@@ -842,10 +842,53 @@ PROPS = {
 # ------------------------------------------------------------------------------------------------
 # Lean obligations
 # ------------------------------------------------------------------------------------------------
+BRIDGE_GROUPS = {
+    "arith": ["max_eq", "min_eq", "ceilMul_eq", "floorMul_eq", "untranslatable_none"],
+    "iter": ["posNext_eq", "posList_step", "foldSize_step", "foldSize_last", "minSizeL_step", "minSizeL_last", "typeIter_minSize_step", "typeIter_minSize_last",
+             "alignL_step", "foldSizeDyn_step", "foldSizeDyn_last", "iter_untranslatable_none"],
+    "vec": ["vec_align", "vec_minSize", "vec_size", "vec_slots", "vec_viewLen", "vec_untranslatable_none"],
+    "str": ["str_align", "str_minSize", "str_size", "str_viewLen", "str_untranslatable_none"],
+    "flex": ["flex_align", "flex_minSize", "flex_viewLen", "flex_validate_floor", "flex_size_term", "flex_size_last", "flex_seal_and_fill", "flex_untranslatable_none"],
+    "macro": ["ustruct_minSize", "sstruct_size", "uenum_minSize", "minList_step", "ustruct_lastFieldOffset_and_size", "ustruct_viewLen", "ustruct_validate_floor",
+              "uenum_viewLen", "senum_dataOffset", "validate_and_init_floors", "macro_untranslatable_none"],
+    "portable": ["portable_table_ok"],
+}
+LAYOUT = ["arith", "iter", "vec", "str", "flex", "macro"]
+BRIDGE_OF = {
+    "C01": LAYOUT, "C02": LAYOUT, "C03": LAYOUT, "C04": LAYOUT, "C05": LAYOUT, "C06": LAYOUT, "C07": LAYOUT, "C10": LAYOUT,
+    "C11": ["arith", "vec", "str"], "C12": ["arith", "flex"], "C13": ["arith", "vec", "str", "flex"], "C14": LAYOUT, "C15": LAYOUT,
+    "C16": ["portable"], "C17": LAYOUT, "C18": LAYOUT, "C19": ["arith", "iter", "macro", "vec", "flex"], "C20": LAYOUT, "C08": [], "C09": [],
+}
+def regenerate_formulas():
+    rc, out = sh([sys.executable, os.path.join(VERIF, "tools", "extract_formulas.py")], env={"VERIF_REPO": REPO})
+    return rc == 0, out
+
 def lean_obligations(prop, cfg, thorough):
     """returns (list of dict(name, ok, axioms, detail), log)"""
     res = []
+    bridge = [f"FV.Bridge.{t}" for g in BRIDGE_OF.get(prop, []) for t in BRIDGE_GROUPS[g]]
+    tr_ok, tr_out = regenerate_formulas()
     ok_build, out = build_lean([cfg["module"], "fvdriver"])
+    bridge_ok, bridge_out = (True, "")
+    if bridge:
+        bridge_ok, bridge_out = build_lean(["FV.Bridge"])
+        if not bridge_ok or not tr_ok:
+            # which equations fail: the generated file is small, so the failing theorem names are in the compiler output
+            failing = set(re.findall(r"FV/Bridge\.lean:(\d+):", bridge_out))
+            src = open(os.path.join(LEAN, "FV", "Bridge.lean")).read().split("\n")
+            bad_names = set()
+            for ln in failing:
+                i = int(ln) - 1
+                while i >= 0 and not src[i].startswith("theorem "):
+                    i -= 1
+                if i >= 0:
+                    bad_names.add(src[i].split()[1])
+            for b in bridge:
+                short = b.split(".")[-1]
+                if short in bad_names or (not bad_names):
+                    res.append(dict(name=b + " (formula bridge: source formula = model formula)", ok=False, axioms=[], detail="the formula extracted from the source no longer equals the model's: " + (tr_out.strip()[-300:] + " " if not tr_ok or "UNTRANSLATABLE" in tr_out else "") + bridge_out[-400:]))
+                else:
+                    res.append(dict(name=b + " (formula bridge)", ok=True, axioms=[], detail="not affected"))
     if not ok_build:
         for th in cfg["theorems"] or ["<module>"]:
             res.append(dict(name=th, ok=False, axioms=[], detail="lake build failed"))
@@ -853,12 +896,15 @@ def lean_obligations(prop, cfg, thorough):
     audit_dir = os.path.join(BUILD, "audit")
     os.makedirs(audit_dir, exist_ok=True)
     ap = os.path.join(audit_dir, prop + ".lean")
+    audit_list = list(cfg["theorems"]) + (bridge if bridge and bridge_ok and tr_ok else [])
     with open(ap, "w") as f:
         f.write(f"import {cfg['module']}\n")
-        for th in cfg["theorems"]:
+        if bridge and bridge_ok and tr_ok:
+            f.write("import FV.Bridge\n")
+        for th in audit_list:
             f.write(f"#print axioms {th}\n")
     rc, aout = sh(["lake", "env", "lean", ap], cwd=LEAN, timeout=1800)
-    for th in cfg["theorems"]:
+    for th in audit_list:
         m = re.search(r"'" + re.escape(th) + r"' depends on axioms: \[([^\]]*)\]", aout.replace("\n", " "))
         m0 = re.search(r"'" + re.escape(th) + r"' does not depend on any axioms", aout)
         if m:
